@@ -287,6 +287,10 @@ def text_pool(rng, big):
         out.append(cps(bech32(hrp.upper(), 0, rbytes(rng, 20))))
     for hrp in ['b', 'bcr', 'tc', 'ltc', 'bc1', '']:
         out.append(cps(bech32(hrp, 0, rbytes(rng, 20))))
+    # texts that decode to fewer than five bytes and look like "nothing + its own checksum prefix"
+    for k in range(0, 5):
+        out.append(cps(b58(sha256d(b'')[:k])))
+        out.append(cps(b58(b'\x00' + sha256d(b'\x00')[:k])))
     # Base58Check: payload lengths and version bytes
     vers = [0, 5, 111, 196, 128, 239, 1, 4, 6, 110, 112, 195, 197, 255] + [rng.randrange(256) for _ in range(4 if big else 1)]
     for v in vers:
